@@ -457,14 +457,16 @@ class _Run(object):
                 self.assign(t, v, a.value, st, node)
             return st
         if isinstance(a, ast.AugAssign):
-            self.ev(a.value, st, node)
+            rhs = self.ev(a.value, st, node)
             st = dict(st)
             if isinstance(a.target, ast.Name):
                 cur = st.get(a.target.id, ANY)
                 self.an.op(self.fi, node, "augmented assignment on %r" % cur)
-                if not (cur.types <= NUM or cur.types <= frozenset(["str"]) or cur.types <= frozenset(["list"])):
+                tuples = cur.types <= frozenset(["tuple"]) and rhs.types <= frozenset(["tuple"]) and isinstance(a.op, ast.Add)
+                if not (tuples or cur.types <= NUM or cur.types <= frozenset(["str"]) or cur.types <= frozenset(["list"])):
                     self.raise_("TypeError", node, "augmented assignment on %r" % cur)
                 self.drop_alias(st, a.target.id)
+                st.pop("$arity:" + a.target.id, None)
             else:
                 self.ev(a.target, st, node)
             return st
@@ -501,6 +503,9 @@ class _Run(object):
         if isinstance(t, ast.Name):
             st[t.id] = v
             self.drop_alias(st, t.id)
+            st.pop("$arity:" + t.id, None)
+            if isinstance(value_expr, ast.Tuple) and not any(isinstance(x, ast.Starred) for x in value_expr.elts):
+                st["$arity:" + t.id] = len(value_expr.elts)      # a tuple display of known length
             if isinstance(value_expr, (ast.Compare, ast.BoolOp)) or (
                     isinstance(value_expr, ast.UnaryOp) and isinstance(value_expr.op, ast.Not)) or (
                     isinstance(value_expr, ast.Call) and dump(value_expr.func) == "isinstance"):
@@ -523,6 +528,7 @@ class _Run(object):
                 if not v.types <= frozenset(["tuple"]) or True:
                     # arity unknown unless the value is a display of the same length
                     if not (isinstance(value_expr, (ast.Tuple, ast.List)) and len(value_expr.elts) == len(t.elts)) \
+                            and not (isinstance(value_expr, ast.Name) and st.get("$arity:" + value_expr.id) == len(t.elts)) \
                             and not self.unpack_ok(value_expr, len(t.elts), st):
                         self.raise_("ValueError" if v.types <= CONTAINERS else "TypeError", node, "unpacking %r" % v)
             for e in t.elts:
